@@ -101,6 +101,15 @@ Http::One::TeChunkedParser::parseChunkSize(Tokenizer &tok)
         if (size < 0)
             throw TexcHere("negative chunk size");
 
+        // Bug 4492: IBM_HTTP_Server sends SP after chunk-size. Skip that BWS
+        // here, once, rather than on every (re)entry into the chunk-ext stage:
+        // a resumed parse must not treat BWS after an extension differently.
+        try {
+            ParseStrictBws(tok);
+        } catch (const InsufficientInput &) {
+            return false; // need more data; nothing committed
+        }
+
         theChunkSize = theLeftBodySize = size;
         debugs(94,7, "found chunk: " << theChunkSize);
         buf_ = tok.remaining(); // parse checkpoint
@@ -125,10 +134,6 @@ Http::One::TeChunkedParser::parseChunkMetadataSuffix(Tokenizer &tok)
     // Code becomes much simpler when incremental parsing functions throw on
     // bad or insufficient input, like in the code below. TODO: Expand up.
     try {
-        // Bug 4492: IBM_HTTP_Server sends SP after chunk-size.
-        // No ParseBws() here because it may consume CR required further below.
-        ParseStrictBws(tok);
-
         parseChunkExtensions(tok); // a possibly empty chunk-ext list
         tok.skipRequired("CRLF after [chunk-ext]", Http1::CrLf());
         buf_ = tok.remaining();
